@@ -20,6 +20,7 @@ pub fn z<T: Debug + ?Sized>(id: u16, v: &T) {
     }
     let s = format!("{:?}", v);
     log::log(K::Call, id, &enc64(fnv(s.as_bytes())));
+    inject(id);
 }
 /// Callback probe without an observable argument.
 pub fn z0(id: u16) {
@@ -27,6 +28,7 @@ pub fn z0(id: u16) {
         return;
     }
     log::log(K::Call, id, &[]);
+    inject(id);
 }
 /// Capture marker inside a block operand.
 pub fn zc(id: u16) {
@@ -34,6 +36,7 @@ pub fn zc(id: u16) {
         return;
     }
     log::log(K::Cap, id, &[]);
+    inject(id);
 }
 /// Operand-expression evaluation marker for non-closure operands: returns its argument.
 pub fn ze<T>(id: u16, v: T) -> T {
@@ -43,6 +46,37 @@ pub fn ze<T>(id: u16, v: T) -> T {
 fn elog(id: u16) {
     if !crate::alloc::armed() {
         log::log(K::Eval, id, &[]);
+        inject(id);
+    }
+}
+
+// fault injection for the zoo probes (C18 sub-run): one probe id panics on its first call, another one parks its thread
+// until the harness releases it. Inert unless armed by `c18z`.
+static PANIC_AT: std::sync::atomic::AtomicU32 = std::sync::atomic::AtomicU32::new(u32::MAX);
+static HOLD_AT: std::sync::atomic::AtomicU32 = std::sync::atomic::AtomicU32::new(u32::MAX);
+struct HoldState {
+    /// log thread index of the thread parked at the hold
+    arrived: Option<u32>,
+    released: bool,
+    /// the evaluation under test has produced its outcome
+    done: bool,
+}
+static HOLD: std::sync::Mutex<HoldState> = std::sync::Mutex::new(HoldState { arrived: None, released: false, done: false });
+static HOLD_CV: std::sync::Condvar = std::sync::Condvar::new();
+fn inject(id: u16) {
+    use std::sync::atomic::Ordering::SeqCst;
+    let id = id as u32;
+    if HOLD_AT.load(SeqCst) == id && HOLD_AT.compare_exchange(id, u32::MAX, SeqCst, SeqCst).is_ok() {
+        let mut g = HOLD.lock().unwrap_or_else(|e| e.into_inner());
+        g.arrived = Some(log::thr());
+        HOLD_CV.notify_all();
+        let deadline = Instant::now() + std::time::Duration::from_secs(300);
+        while !g.released && Instant::now() < deadline {
+            g = HOLD_CV.wait_timeout(g, std::time::Duration::from_millis(200)).unwrap_or_else(|e| e.into_inner()).0;
+        }
+    }
+    if PANIC_AT.load(SeqCst) == id && PANIC_AT.compare_exchange(id, u32::MAX, SeqCst, SeqCst).is_ok() {
+        panic!("injected@{}", id);
     }
 }
 pub use crate::alloc::Bag;
@@ -117,6 +151,7 @@ pub fn sr(id: u16) -> Result<u32, u8> {
 }
 pub fn si(id: u16) -> std::vec::IntoIter<u32> {
     log::log(K::Eval, id, &[]);
+    inject(id);
     match plan::get(id) {
         0 => vec![1, 2, 3, 4, 5, 6],
         1 => vec![],
@@ -381,6 +416,360 @@ fn show(l: &[Ev]) -> String {
     l.iter().filter(|e| matches!(e.k, K::Call | K::Cap | K::Eval)).map(|e| format!("{:?}({})", e.k, e.id)).collect::<Vec<_>>().join(" ")
 }
 
+
+/// Outcome of one evaluation on a fresh worker thread named `main` (the caller of the macro).
+struct WorkerRun {
+    res: Option<Res>,
+    log: Vec<Ev>,
+    caller: u32,
+    /// the hold was reached, by this log thread
+    hold_thread: Option<u32>,
+    /// the outcome arrived while a thread was still parked at the hold
+    parked_at_outcome: bool,
+    /// the caller itself is parked at the hold: it can never produce its outcome (decided without a clock)
+    caller_parked: bool,
+    timed_out: bool,
+}
+static CALLER: std::sync::atomic::AtomicU32 = std::sync::atomic::AtomicU32::new(u32::MAX);
+fn run_worker(f: fn() -> String, panic_at: Option<u16>, hold_at: Option<u16>) -> WorkerRun {
+    use std::sync::atomic::Ordering::SeqCst;
+    let base = crate::exec::os_threads();
+    log::new_epoch();
+    log::clear();
+    {
+        let mut g = HOLD.lock().unwrap_or_else(|e| e.into_inner());
+        *g = HoldState { arrived: None, released: false, done: false };
+    }
+    CALLER.store(u32::MAX, SeqCst);
+    PANIC_AT.store(panic_at.map(|x| x as u32).unwrap_or(u32::MAX), SeqCst);
+    HOLD_AT.store(hold_at.map(|x| x as u32).unwrap_or(u32::MAX), SeqCst);
+    let h = std::thread::Builder::new()
+        .name("main".into())
+        .stack_size(64 << 20)
+        .spawn(move || {
+            CALLER.store(log::thr(), SeqCst);
+            let r = catch_unwind(AssertUnwindSafe(f));
+            let mut g = HOLD.lock().unwrap_or_else(|e| e.into_inner());
+            g.done = true;
+            HOLD_CV.notify_all();
+            drop(g);
+            r
+        })
+        .expect("spawn");
+    let deadline = Instant::now() + std::time::Duration::from_secs(120);
+    let mut caller_parked = false;
+    let mut timed_out = false;
+    let mut g = HOLD.lock().unwrap_or_else(|e| e.into_inner());
+    loop {
+        if g.done {
+            break;
+        }
+        if let Some(a) = g.arrived {
+            if a == CALLER.load(SeqCst) {
+                caller_parked = true;
+                break;
+            }
+        }
+        if Instant::now() >= deadline {
+            timed_out = true;
+            break;
+        }
+        g = HOLD_CV.wait_timeout(g, std::time::Duration::from_millis(50)).unwrap_or_else(|e| e.into_inner()).0;
+    }
+    let hold_thread = g.arrived;
+    let parked_at_outcome = g.done && g.arrived.is_some();
+    g.released = true;
+    HOLD_CV.notify_all();
+    drop(g);
+    PANIC_AT.store(u32::MAX, SeqCst);
+    HOLD_AT.store(u32::MAX, SeqCst);
+    let caller = CALLER.load(SeqCst);
+    if timed_out {
+        // no outcome and nobody parked on the caller: not decided here; the worker is left behind
+        return WorkerRun { res: None, log: log::take(), caller, hold_thread, parked_at_outcome, caller_parked, timed_out };
+    }
+    let r = h.join().unwrap_or_else(|e| Err(e));
+    if r.is_err() {
+        let _ = crate::exec::quiesce(std::time::Duration::from_secs(10), base);
+    }
+    let l = log::take();
+    WorkerRun {
+        res: Some(match r {
+            Ok(s) => Res::Val(s),
+            Err(e) => Res::Panic(crate::exec::panic_msg(e)),
+        }),
+        log: l.into_iter().filter(|e| !e.stale).collect(),
+        caller,
+        hold_thread,
+        parked_at_outcome,
+        caller_parked,
+        timed_out,
+    }
+}
+
+/// C18 over the zoo vocabulary: a panic injected at a callback / operand / capture position of a twin's macro side (positions
+/// taken from the log of the same evaluation without injection, so lazily executed iterator and stream closures count where
+/// they really run) must come out of the evaluation as a panic, and nothing may run that the undisturbed evaluation would not
+/// have run at that point. In the thread kinds, for twins whose steps all have every branch active, the panic must also reach
+/// the caller while a callback of a higher-numbered sibling branch of the same or a later step is parked.
+fn c18z(twins: &'static [Twin], out: Option<String>, only: Option<u32>, only_plan: Option<String>, only_pos: Option<String>, thorough: bool, trace: bool) {
+    let t0 = Instant::now();
+    let mut runs = 0u64;
+    let mut events = 0u64;
+    let mut nontrivial: HashSet<u64> = HashSet::new();
+    let mut viols: Vec<String> = Vec::new();
+    let mut nviol = 0u64;
+    let mut inconclusive: Vec<String> = Vec::new();
+    let mut samples: Vec<String> = Vec::new();
+    let mut cover: BTreeMap<String, u64> = BTreeMap::new();
+    let mut bump = |cover: &mut BTreeMap<String, u64>, k: &str| *cover.entry(k.to_string()).or_insert(0) += 1;
+    let seqs = |t: &Twin, l: &[Ev]| -> BTreeMap<usize, Vec<(K, u16)>> {
+        let mut m: BTreeMap<usize, Vec<(K, u16)>> = BTreeMap::new();
+        for e in l {
+            if matches!(e.k, K::Call | K::Cap | K::Eval) {
+                m.entry(branch_of(t, e.id)).or_default().push((e.k, e.id));
+            }
+        }
+        m
+    };
+    let (max_plans, max_pos, max_pairs) = if thorough { (6usize, 24usize, 12usize) } else { (2, 3, 2) };
+    'twins: for t in twins {
+        if let Some(o) = only {
+            if t.id != o {
+                continue;
+            }
+        }
+        let has = |x: &str| t.tags.split(',').any(|y| y == x);
+        let threads = matches!(t.kind, "join_spawn" | "try_join_spawn" | "spawn" | "try_spawn");
+        let sequential = matches!(t.kind, "join" | "try_join");
+        let single_poller = matches!(t.kind, "join_async" | "try_join_async");
+        let mut plans: Vec<Vec<(u16, u8)>> = vec![vec![]];
+        for (id, n) in t.srcs {
+            let mut next = Vec::new();
+            for p in &plans {
+                for s in 0..*n {
+                    let mut q = p.clone();
+                    q.push((*id, s));
+                    next.push(q);
+                }
+            }
+            plans = next;
+            if plans.len() > 24 {
+                plans.truncate(24);
+            }
+        }
+        // spread the plans that are kept over the list (the first ones differ in the last source only)
+        if plans.len() > max_plans {
+            let n = plans.len();
+            plans = (0..max_plans).map(|i| plans[(i * n / max_plans + (t.id as usize % (n / max_plans).max(1))) % n].clone()).collect();
+        }
+        for p in plans {
+            let pstr = p.iter().map(|(i, s)| format!("{}:{}", i, s)).collect::<Vec<_>>().join(",");
+            if let Some(op) = &only_plan {
+                if &pstr != op {
+                    continue;
+                }
+            }
+            plan::install(t.max_id, &p);
+            let (rv, _) = run_one(t.r);
+            if let Res::Panic(_) = &rv {
+                bump(&mut cover, "skipped:reference_panics_by_itself");
+                continue;
+            }
+            plan::install(t.max_id, &p);
+            let ok = run_worker(t.m, None, None);
+            let ml = ok.log;
+            match ok.res {
+                Some(Res::Val(_)) => {}
+                _ => {
+                    // a macro side that panics (or does not return) without any injection is the operator check's finding
+                    bump(&mut cover, "skipped:macro_side_does_not_evaluate_without_injection");
+                    continue;
+                }
+            }
+            let base_seq = seqs(t, &ml);
+            // first occurrence of every probe id
+            let mut firsts: Vec<(usize, K, u16, u32)> = Vec::new();
+            for (i, e) in ml.iter().enumerate() {
+                if matches!(e.k, K::Call | K::Cap | K::Eval) && !firsts.iter().any(|f| f.2 == e.id) {
+                    firsts.push((i, e.k, e.id, e.thr));
+                }
+            }
+            if firsts.is_empty() {
+                continue;
+            }
+            let mut order: Vec<usize> = (0..firsts.len()).collect();
+            let mut r = crate::rng::Rng::new(fnv(format!("{}|{}", t.id, pstr).as_bytes()));
+            r.shuffle(&mut order);
+            order.truncate(max_pos);
+            for oi in order {
+                let (xi, xk, x, _) = firsts[oi];
+                let pos = format!("p{}", x);
+                if let Some(op) = &only_pos {
+                    if op != &pos {
+                        continue;
+                    }
+                }
+                plan::install(t.max_id, &p);
+                let w = run_worker(t.m, Some(x), None);
+                runs += 1;
+                events += w.log.len() as u64;
+                let mut msgs: Vec<String> = Vec::new();
+                if w.timed_out {
+                    inconclusive.push(format!("twin {} plan {} panic at {}: no outcome within 120 s", t.id, pstr, x));
+                    break 'twins;
+                }
+                match &w.res {
+                    Some(Res::Val(v)) => msgs.push(format!("the panic raised by {:?}({}) did not reach the caller: the evaluation returned {}", xk, x, v)),
+                    Some(Res::Panic(m)) => {
+                        if (sequential || single_poller) && !has("nest") && !m.contains(&format!("injected@{}", x)) {
+                            msgs.push(format!("the caller saw a different panic than the one raised by {:?}({}): {:?}", xk, x, m));
+                        }
+                    }
+                    None => {}
+                }
+                let got = seqs(t, &w.log);
+                for (b, sq) in &got {
+                    let full = base_seq.get(b).cloned().unwrap_or_default();
+                    if sq.len() > full.len() || full[..sq.len()] != sq[..] {
+                        msgs.push(format!("after the panic at {:?}({}) branch {} ran [{}], which is not a prefix of its undisturbed run [{}]", xk, x, b, sq.iter().map(|e| format!("{:?}({})", e.0, e.1)).collect::<Vec<_>>().join(" "), full.iter().map(|e| format!("{:?}({})", e.0, e.1)).collect::<Vec<_>>().join(" ")));
+                    }
+                }
+                let xb = branch_of(t, x);
+                if let Some(sq) = got.get(&xb) {
+                    if sq.last().map(|e| e.1) != Some(x) {
+                        msgs.push(format!("branch {} went on after its panic at {:?}({}): [{}]", xb, xk, x, sq.iter().map(|e| format!("{:?}({})", e.0, e.1)).collect::<Vec<_>>().join(" ")));
+                    }
+                }
+                if sequential || single_poller {
+                    let l: Vec<(K, u16)> = w.log.iter().filter(|e| matches!(e.k, K::Call | K::Cap | K::Eval)).map(|e| (e.k, e.id)).collect();
+                    if l.last().map(|e| e.1) != Some(x) {
+                        msgs.push(format!("user expressions ran after the panic at {:?}({}): [{}]", xk, x, show(&w.log)));
+                    }
+                    if sequential {
+                        let full: Vec<(K, u16)> = ml.iter().filter(|e| matches!(e.k, K::Call | K::Cap | K::Eval)).map(|e| (e.k, e.id)).collect();
+                        let cut = full.iter().position(|e| e.1 == x).map(|i| i + 1).unwrap_or(0);
+                        if full[..cut] != l[..] {
+                            msgs.push(format!("the run with a panic at {:?}({}) is not the undisturbed run cut at that point: [{}] vs [{}]", xk, x, show(&w.log), show(&ml)));
+                        }
+                    }
+                }
+                bump(&mut cover, &format!("panic_in:{:?}", xk));
+                bump(&mut cover, &format!("kind:{}", t.kind));
+                let lazy = ml[..xi].iter().any(|e| e.k == K::Eval && e.id == x);
+                if lazy {
+                    bump(&mut cover, "panic_in_callback_whose_operand_was_evaluated_earlier");
+                }
+                nontrivial.insert(fnv(format!("{}|{}|{}", t.id, pstr, x).as_bytes()));
+                if trace {
+                    println!("TWIN {} [{}] plan {} panic at {:?}({})\n  dsl: {}\n  outcome {:?}\n  trace {}\n  undisturbed {}", t.id, t.kind, pstr, xk, x, t.text, w.res, show(&w.log), show(&ml));
+                }
+                if !msgs.is_empty() {
+                    nviol += 1;
+                    if viols.len() < 30 {
+                        viols.push(obj(&[
+                            ("tag", esc("TWIN")),
+                            ("case", esc(&format!("z{}:{}", t.id, t.kind))),
+                            ("msg", esc(&msgs.join(" ; "))),
+                            ("program", esc(&format!("{}! {{ {} }}", t.kind, t.text))),
+                            ("replay", esc(&format!("--only {} --plan {} --pos {}", t.id, pstr, pos))),
+                        ]));
+                    }
+                } else if samples.len() < 2 && (samples.is_empty() || runs % 97 == 1) {
+                    samples.push(obj(&[
+                        ("macro", esc(&format!("{}! {{ {} }}", t.kind, t.text))),
+                        ("inputs", esc(&pstr)),
+                        ("panic_at", esc(&format!("{:?}({})", xk, x))),
+                        ("outcome", esc(&format!("{:?}", w.res))),
+                        ("trace", esc(&show(&w.log))),
+                    ]));
+                }
+            }
+            if threads && has("eqdepth") {
+                // (X, H): X panics, H parks. first(X) < first(H) in the undisturbed log: X's step is not later than H's (steps
+                // are separated by barriers), so holding H cannot keep X from being reached; branch(X) < branch(H): handles
+                // are joined in branch order, the caller reaches X's thread before H's.
+                let mut pairs: Vec<(u16, K, u16)> = Vec::new();
+                for (xi, xk, x, _) in &firsts {
+                    for (hi, hk, h, hthr) in &firsts {
+                        let (bx, bh) = (branch_of(t, *x), branch_of(t, *h));
+                        if *hk == K::Call && *hthr != ok.caller && xi < hi && bx != usize::MAX && bh != usize::MAX && bx < bh {
+                            pairs.push((*x, *xk, *h));
+                        }
+                    }
+                }
+                r.shuffle(&mut pairs);
+                pairs.truncate(max_pairs);
+                for (x, xk, hd) in pairs {
+                    let pos = format!("p{}h{}", x, hd);
+                    if let Some(op) = &only_pos {
+                        if op != &pos {
+                            continue;
+                        }
+                    }
+                    plan::install(t.max_id, &p);
+                    let w = run_worker(t.m, Some(x), Some(hd));
+                    runs += 1;
+                    events += w.log.len() as u64;
+                    let mut msgs: Vec<String> = Vec::new();
+                    if w.caller_parked {
+                        msgs.push(format!("the caller is left blocked: it runs callback {} of branch {} itself and is parked there, so the panic raised by {:?}({}) in branch {} never reaches it", hd, branch_of(t, hd), xk, x, branch_of(t, x)));
+                    } else if w.timed_out {
+                        inconclusive.push(format!("twin {} plan {} panic at {} with {} parked: no outcome within 120 s", t.id, pstr, x, hd));
+                        break 'twins;
+                    } else if let Some(Res::Val(v)) = &w.res {
+                        msgs.push(format!("the panic raised by {:?}({}) did not reach the caller: the evaluation returned {}", xk, x, v));
+                    }
+                    if w.parked_at_outcome && !w.caller_parked {
+                        bump(&mut cover, "panic_reached_the_caller_while_a_higher_sibling_callback_was_parked");
+                        let lazy = ml.iter().position(|e| e.k == K::Eval && e.id == hd).map(|i| ml[i..].iter().any(|e| e.k == K::Cap) ).unwrap_or(false);
+                        if lazy {
+                            bump(&mut cover, "parked_callback_ran_in_a_later_step_than_its_operand_was_written_in");
+                        }
+                    } else if w.hold_thread.is_none() {
+                        bump(&mut cover, "hold_not_reached (the panic ended the evaluation in an earlier step)");
+                    }
+                    nontrivial.insert(fnv(format!("{}|{}|{}|{}", t.id, pstr, x, hd).as_bytes()));
+                    if trace {
+                        println!("TWIN {} [{}] plan {} panic at {:?}({}) hold at {}\n  dsl: {}\n  outcome {:?} parked_at_outcome={} caller_parked={}\n  trace {}", t.id, t.kind, pstr, xk, x, hd, t.text, w.res, w.parked_at_outcome, w.caller_parked, show(&w.log));
+                    }
+                    if !msgs.is_empty() {
+                        nviol += 1;
+                        if viols.len() < 30 {
+                            viols.push(obj(&[
+                                ("tag", esc("TWIN")),
+                                ("case", esc(&format!("z{}:{}", t.id, t.kind))),
+                                ("msg", esc(&msgs.join(" ; "))),
+                                ("program", esc(&format!("{}! {{ {} }}", t.kind, t.text))),
+                                ("replay", esc(&format!("--only {} --plan {} --pos {}", t.id, pstr, pos))),
+                            ]));
+                        }
+                    }
+                }
+            }
+        }
+    }
+    let cover_s = format!("{{{}}}", cover.iter().map(|(k, v)| format!("{}:{}", esc(k), v)).collect::<Vec<_>>().join(","));
+    let rep = obj(&[
+        ("prop", esc("C18z")),
+        ("runs", runs.to_string()),
+        ("events", events.to_string()),
+        ("nontrivial", arr(&nontrivial.iter().map(|h| h.to_string()).collect::<Vec<_>>())),
+        ("violations", arr(&viols)),
+        ("violation_count", nviol.to_string()),
+        ("inconclusive", arr(&inconclusive.iter().map(|s| esc(s)).collect::<Vec<_>>())),
+        ("samples", arr(&samples)),
+        ("cover", cover_s),
+        ("wall_ms", t0.elapsed().as_millis().to_string()),
+    ]);
+    match out {
+        Some(p) => std::fs::write(p, rep).expect("write report"),
+        None => println!("{}", rep),
+    }
+    // a run that timed out leaves its worker behind: do not wait for it
+    std::process::exit(0);
+}
+
 pub fn main(twins: &'static [Twin]) {
     let args: Vec<String> = std::env::args().collect();
     let get = |k: &str| args.iter().position(|a| a == k).and_then(|i| args.get(i + 1)).cloned();
@@ -391,6 +780,9 @@ pub fn main(twins: &'static [Twin]) {
     let only_plan = get("--plan");
     std::panic::set_hook(Box::new(|_| {}));
     log::mark_harness_thread();
+    if prop == "C18z" {
+        return c18z(twins, out, only, only_plan, get("--pos"), get("--tier").as_deref() == Some("thorough"), trace);
+    }
     let t0 = Instant::now();
     let mut runs = 0u64;
     let mut events = 0u64;
